@@ -6,6 +6,8 @@
     followed by something that makes the result independent of the iteration order. *)
 From Coq Require Import List ZArith NArith Bool Lia Permutation Sorted.
 From AG Require Import Str F64 Value Json Expr Ops Pipeline Value_proofs Sort_proofs Sorter_proofs Agg_proofs Determinism_proofs Perm_proofs.
+From AG Require Import Stream Stream_proofs Protocol_proofs.
+From AG Require Render_loop.
 Import ListNotations.
 
 (** MultiGrouper::emit iterates a HashMap: any enumeration order of the groups gives the same table *)
@@ -68,3 +70,23 @@ Proof. exact distinct_perm. Qed.
 Print Assumptions C13_distinct_order_free.
 
 (** record-mode output under thread timing is the business of C15 (stream_safety) *)
+
+(** independent of THREAD TIMING.  Rows: whatever the interleaving of the reader and the renderer thread, a run that has
+    terminated has written the same rows - those of the staged reference ([C15_complete]) ... *)
+Theorem C13_schedule_free_rows : forall f ops lines sched sched',
+  let s := run_schedule sched (Stream.init f ops lines None) in
+  let s' := run_schedule sched' (Stream.init f ops lines None) in
+  terminal s = true -> terminal s' = true -> y_out s = y_out s'.
+Proof.
+  intros f ops lines sched sched' s s' Ht Ht'. subst s s'.
+  rewrite (stream_complete f ops lines sched Ht), (stream_complete f ops lines sched' Ht'). reflexivity.
+Qed.
+Print Assumptions C13_schedule_free_rows.
+
+(** ... aggregates, not a terminal: the one thing written is the final print of the rows received, however rows and
+    timeouts were interleaved and whatever the clock said ([C16_not_a_terminal_prints_once]) *)
+Theorem C13_schedule_free_aggregate : forall (A F : Type) (table final : list A -> F) interval (evs evs' : list (Render_loop.ev A)),
+  Render_loop.received A evs = Render_loop.received A evs' ->
+  Render_loop.run_loop A F table final interval false evs = Render_loop.run_loop A F table final interval false evs'.
+Proof. intros A F table final interval evs evs' H. rewrite !Render_loop.run_loop_no_tty, H. reflexivity. Qed.
+Print Assumptions C13_schedule_free_aggregate.
